@@ -343,7 +343,7 @@ func conv[O any](y any) O {
 
 type NSpec struct {
 	ID   int     `json:"id"`
-	Kind int     `json:"kind"` // 0 s->s, 1 m->s, 2 s->m, 3 m->m
+	Kind int     `json:"kind"` // 0 s->s, 1 m->s, 2 s->m, 3 m->m (a rendering under one key), 4 m->m (the input map itself under one key)
 	K1   int     `json:"k1"`
 	K2   int     `json:"k2"`
 	Nat  [4]bool `json:"nat"` // I S C T
@@ -373,13 +373,17 @@ func (sp *NSpec) seenOutMap() bool {
 }
 
 func (sp *NSpec) tag() string  { return fmt.Sprintf("n%d", sp.ID) }
-func (sp *NSpec) inMap() bool  { return sp.Kind == 1 || sp.Kind == 3 }
-func (sp *NSpec) outMap() bool { return sp.Kind == 2 || sp.Kind == 3 }
-func (sp *NSpec) isLive() bool { return sp.Live && (sp.Kind == 0 || sp.Kind == 2) }
+func (sp *NSpec) inMap() bool  { return sp.Kind == 1 || sp.Kind == 3 || sp.Kind == 4 }
+func (sp *NSpec) outMap() bool { return sp.Kind == 2 || sp.Kind == 3 || sp.Kind == 4 }
+func (sp *NSpec) isLive() bool { return sp.Live && (sp.Kind == 0 || sp.Kind == 2 || sp.Kind == 4) }
 
 var errNode = errors.New("node chosen to fail")
 
 func fSpec(sp *NSpec, x any) (any, error) {
+	if sp.Kind == 4 {
+		// the input map as it is (whatever its Go type) under the key
+		return map[string]any{keyStr(sp.K1): x}, nil
+	}
 	x = norm(x)
 	switch sp.Kind {
 	case 0:
@@ -408,7 +412,10 @@ type sitem struct {
 }
 
 func emit(sp *NSpec, y any) []sitem {
-	cs := splitVal(sp.Pol, y)
+	cs := []any{y} // kind 4: one chunk
+	if sp.Kind != 4 {
+		cs = splitVal(sp.Pol, y)
+	}
 	var out []sitem
 	if sp.Fail == 2 {
 		for _, c := range cs[:(len(cs)+1)/2] {
@@ -612,6 +619,26 @@ func liveT[I, O any](sp *NSpec, in *schema.StreamReader[I], sw *schema.StreamWri
 	defer sw.Close()
 	defer in.Close()
 	var zero O
+	if sp.Kind == 4 {
+		// every map chunk goes out under the key, up to the first error item
+		if sp.Fail == 2 {
+			sw.Send(zero, errNode)
+			return
+		}
+		for {
+			c, err := in.Recv()
+			if err == io.EOF {
+				return
+			}
+			if err != nil {
+				sw.Send(zero, err)
+				return
+			}
+			if sw.Send(conv[O](map[string]any{keyStr(sp.K1): any(c)}), nil) {
+				return
+			}
+		}
+	}
 	var pre, suf any
 	if sp.Kind == 0 {
 		pre, suf = sp.tag()+"(", ")"
